@@ -26,7 +26,7 @@ def run(ctx):
     quick = ctx.tier == "quick"
     nontrivial = lambda req, resp: resp != "err"
     # 1. exact model comparison + acceptors on generated signatures x component paths
-    chunks = [(3000, 0)] if quick else [(6000, k) for k in range(5)]
+    chunks = [(3000, 0)] if quick else [(6000, k) for k in range(10)]
     for n, k in chunks:
         tag = "" if quick else f"-{k}"
         ctx.differential("c07", n, extra=["-chunk", str(k)], tag=tag, nontrivial=nontrivial)
@@ -34,7 +34,7 @@ def run(ctx):
     # 2. compiler agreement (measured): reflect/unsafe sizes of the real compiler, go vet -asmdecl and
     #    execution of generated stub+asm pairs whose operands are the implementation's resolved addresses
     gen = os.path.join(ctx.dir, "gen")
-    xchunks = [(40, 0)] if quick else [(120, k) for k in range(4)]
+    xchunks = [(40, 0)] if quick else [(150, k) for k in range(8)]
     for n, k in xchunks:
         tag = "" if quick else f"-{k}"
         ctx.differential("c07x", n, extra=["-dir", gen, "-chunk", str(k)], tag=tag, timeout=1200)
